@@ -267,7 +267,7 @@ def generate():
                    "self.tmpl % (_entities.encode(\"utf-8\"), l10nValue.encode(\"utf-8\"))",
                    "(l10nEnt.all + _entities).encode(\"utf-8\")",
                    "lnr = e.getLineNumber() - 1", "lines = l10nValue.splitlines()",
-                   "if lnr > len(lines):", "col = len(lines[lnr - 1])", "col = e.getColumnNumber()",
+                   "if lnr > len(lines):", "col = len(lines[lnr - 1]) if lines else 0", "col = e.getColumnNumber()",
                    "if lnr == 1:", "elif lnr == 0:",
                    "if inContext and l10nlist and l10nlist - inContext - set(missing):",
                    "if self.num.match(refValue) and not self.num.match(l10nValue):",
